@@ -1021,11 +1021,26 @@ def rule_constant_agreement(em, rep, rid):
     else:
         rep.violation(rid, 'nil-name', 'ATOM_NIL is atom(%r) but Atom.to_python maps %r to []' % (nil, nil2), atp.loc())
     # makelist
-    src = norm(ml.node)
-    ok = 'reversed(' in src and 'self.listpair(y, x)' in src.replace(' ', '').replace('self.listpair(y,x)', 'self.listpair(y, x)') and 'self.ATOM_NIL' in src
-    if not ok:
-        # accept an explicit loop form
-        ok = 'reversed(' in src and 'listpair' in src and 'ATOM_NIL' in src and 'lambda' not in src
+    # decided by evaluating makelist([a, b, c]) with listpair left uninterpreted: pair(a, pair(b, pair(c, ATOM_NIL)))
+    from .symex import SymEx, ListV, Sym, CallV, PathState
+    from .rules_compile import _nest
+
+    class _SX(SymEx):
+        def apply(self, e, f, args, kw, st, func):
+            if isinstance(f, tuple) and f[0] == 'bound' and f[1].name == 'listpair':
+                return [(st, CallV('listpair', args))]
+            return SymEx.apply(self, e, f, args, kw, st, func)
+    ok = False
+    try:
+        outs = _SX(em.repo, inline=lambda f: False, opaque=lambda n: False).run(ml, [ListV([Sym('a'), Sym('b'), Sym('c')])], PathState())
+        ok = bool(outs)
+        for st_, v_ in outs:
+            heads, tail = _nest(v_)
+            if [repr(h) for h in heads] != ['a', 'b', 'c'] or 'ATOM_NIL' not in repr(tail):
+                ok = False
+    except (AnalysisError, RecursionError):
+        src = norm(ml.node)
+        ok = 'reversed(' in src and 'listpair' in src and 'ATOM_NIL' in src
     if ok:
         rep.ok(rid, 'makelist', 'folds listpair over the reversed list onto ATOM_NIL', ml.loc())
     else:
